@@ -83,6 +83,54 @@ def r1(chk, prog):
                                                    '(duplicates not allowed)'] if bypass else []) +
                                            ([] if hits_throw else ['a positive comparison does not end in throw']))
                 chk.check(ok, 'R1', f.name, 'new key is %s [%s]' % (what, sname), f.loc(p), detail)
+    # ... and each comparison relates a STORED entry with the NEW key (a key compared with itself is always equal and
+    # never mismatches): in addArgument one operand refers to the loop variable only, the other to the key parameter
+    # only; in the forwarding members of the stored entry (Data< T>::operator==( key) / mismatch( key)) one operand
+    # is the own key member, the other the parameter
+    def operand_refs(c):
+        ops = call_args(c) if c.get('k') == 'CXXOperatorCallExpr' else [object_of(c)] + call_args(c)
+        res = []
+        for o in ops:
+            refs = set()
+            for x in walk(o) if o is not None else []:
+                if x.get('k') == 'DeclRefExpr' and x['ref'].get('sto') in ('local', 'param'):
+                    refs.add((x['ref'].get('sto'), x['ref'].get('name')))
+                elif x.get('k') == 'MemberExpr' and x['ref'].get('dk') == 'Field':
+                    refs.add(('field', x['ref'].get('name')))
+                elif x.get('k') == 'CXXThisExpr' and o.get('k') == 'UnaryOperator':
+                    refs.add(('field', '*this'))
+            res.append(refs)
+        return res
+    for f in adds:
+        key_param = f.params[1]['name']
+        for l in loops_in(f):
+            if l.get('k') != 'CXXForRangeStmt':
+                continue
+            lv = children(l)[1]['decls'][0]['name']
+            for c in walk(l):
+                if is_key_eq(c) or is_mismatch(c):
+                    sides = operand_refs(c)
+                    want = [{('local', lv)}, {('param', key_param)}]
+                    ok = len(sides) == 2 and (sides == want or sides == want[::-1])
+                    chk.check(ok, 'R1', f.name, '%s relates a stored entry with the new key' % (
+                        'operator==' if is_key_eq(c) else 'mismatch()'), f.loc(c), 'operands refer to %s' % [
+                            sorted(n for _, n in s_) for s_ in sides])
+    n_fw = 0
+    for f in prog.functions:
+        if (f.classq or '') != 'celma::prog_args::detail::Data' or f.body is None or len(f.params) != 1 or \
+                'ArgumentKey' not in f.params[0]['t'] or f.short not in ('operator==', 'mismatch'):
+            continue
+        cs = [c for c in f.calls() if is_key_eq(c) or is_mismatch(c)]
+        n_fw += 1
+        ok = False
+        sides = []
+        if len(cs) == 1:
+            sides = operand_refs(cs[0])
+            kinds = sorted(sorted(k for k, _ in s_) for s_ in sides)
+            ok = len(sides) == 2 and kinds == [['field'], ['param']]
+        chk.check(ok, 'R1', f.name, 'the stored entry compares its OWN key with the key it is given (%s)' % f.short,
+                  f.loc(), 'operands refer to %s' % [sorted(n for _, n in s_) for s_ in sides])
+    chk.require(n_fw >= 2, 'forwarding comparisons of the stored entry (Data< T>): %d' % n_fw)
     # who may write mArgs
     for f in prog.functions:
         if f.classq != 'celma::prog_args::detail::Storage':
@@ -123,12 +171,69 @@ def r1(chk, prog):
     chk.require(n >= 8, 'only %d Handler::add* entry points found' % n)
 
 
+def r2_lookup_operands(chk, prog, rule='R2'):
+    """findArg()/findExactArg(): every comparison relates the entry under examination (loop variable) with the key
+    that is looked up (parameter) - the prefix test in the direction 'stored key starts with the given key' - and
+    what the lookup hands out is that entry: a return value / a remembered partial match refers to the loop variable
+    (or a local that was set from it, or null), never to another element of the container"""
+    n = 0
+    for short in ('findArg', 'findExactArg'):
+        f = prog.one('celma::prog_args::detail::ArgumentContainer', short)
+        key_param = f.params[0]['name']
+        loops = [l for l in loops_in(f) if l.get('k') == 'CXXForRangeStmt']
+        chk.require(loops, '%s: search loop not found' % short)
+
+        def refs(o):
+            r = set()
+            for x in walk(o) if o is not None else []:
+                if x.get('k') == 'DeclRefExpr' and x['ref'].get('sto') in ('local', 'param'):
+                    r.add(x['ref'].get('name'))
+                elif x.get('k') == 'MemberExpr' and x['ref'].get('dk') == 'Field':
+                    r.add('this.' + x['ref'].get('name'))
+            return r
+
+        def loop_var_at(node):
+            """the variable of the innermost search loop around node (None outside the loops)"""
+            best = None
+            for l in loops:
+                if any(x is node for x in walk(children(l)[-1])):
+                    best = children(l)[1]['decls'][0]['name']
+            return best
+        for c in f.calls():
+            lv = loop_var_at(c)
+            if is_key_eq(c):
+                sides = [refs(a) for a in call_args(c)]
+                n += 1
+                chk.check(lv is not None and sorted(map(sorted, sides)) == sorted([[lv], [key_param]]), rule, f.name,
+                          'the exact comparison relates the examined entry with the given key', f.loc(c),
+                          'operands refer to %s' % [sorted(s_) for s_ in sides])
+            elif callee_is(c, 'ArgumentKey::startsWith'):
+                obj, arg = refs(object_of(c)), refs(call_args(c)[0]) if call_args(c) else set()
+                n += 1
+                chk.check(lv is not None and obj == {lv} and arg == {key_param}, rule, f.name,
+                          'prefix test: the stored key starts with the given key', f.loc(c),
+                          'tests whether %s starts with %s' % (sorted(obj), sorted(arg)))
+        ptr_locals = {d['name'] for ds in f.walk() if ds.get('k') == 'DeclStmt' for d in ds.get('decls', [])
+                      if (d.get('t') or '').rstrip().endswith('*')}
+        outs = [(x, children(x)[0]) for x in f.walk() if x.get('k') == 'ReturnStmt' and children(x)]
+        outs += [(x, children(x)[1]) for x in f.walk() if x.get('k') == 'BinaryOperator' and x.get('op') == '=' and
+                 strip_all_casts(children(x)[0]).get('ref', {}).get('name') in ptr_locals]
+        for node, e in outs:
+            r = refs(e)
+            lv = loop_var_at(node)
+            n += 1
+            chk.check(r <= (({lv} if lv else set()) | ptr_locals), rule, f.name, 'the lookup hands out the examined '
+                      'entry (or a match remembered from one, or null)', f.loc(node), 'the value refers to %s' % sorted(r))
+    return n
+
+
 def r2(chk, prog, rule='R2'):
     f = prog.one('celma::prog_args::detail::ArgumentContainer', 'findArg')
     cfg = f.cfg
     loops = loops_in(f)
     exact = list(cond_blocks_with(cfg, is_key_eq))
     chk.require(exact, 'findArg: exact key comparison not found')
+    r2_lookup_operands(chk, prog, rule)
     # (a) exact match wins: inside a loop that performs the exact comparison there is no exit other
     #     than returning the exact match while elements remain
     for bid, cond in exact:
